@@ -6,17 +6,20 @@
     generic theorems also quantify over the state type, the registry test and the conversion function.  Results of
     the middleware are triples (state, returned acknowledgement — None = Go nil —, hook path — None = hook not called). *)
 From Coq Require Import List ZArith Bool.
-From Teleport Require Import Base.Bytes Base.Outcome Model.Ics20 Model.Ics20Check Proofs.Ics20 Proofs.Ics20Convert
-  Proofs.Ics20Toy Proofs.Ics20Source.
+From Teleport Require Import Base.Bytes Base.Outcome Model.Ics20 Model.Ics20Check Model.Ics20Transfer Proofs.Ics20
+  Proofs.Ics20Convert Proofs.Ics20EndToEnd Proofs.Ics20Toy Proofs.Ics20Source Gen.Ics20HookGen.
 Import ListNotations.
 Local Open Scope Z_scope.
 
 (** ** The model's hook is the one the Go source describes.
-    tools/gotocoq/ics20hook regenerates from x/aggregate/keeper/ibc_hook.go and x/aggregate/ibc_middleware.go what
-    every return statement of Keeper.OnRecvPacket returns, whether the receiver-length guard is there, on which
-    context ConvertCoin runs, where write() is called and the statement shape of the middleware; the hook model
-    instantiated with THOSE parameters is the [hook] all theorems below are about.  A `return nil`, a dropped guard,
-    a conversion on the parent context or a reshaped middleware breaks this obligation. *)
+    tools/gotocoq/ics20hook regenerates from x/aggregate/keeper/ibc_hook.go and x/aggregate/ibc_middleware.go the
+    statements of Keeper.OnRecvPacket that matter (early-return guards classified by data flow, ConvertCoin with its
+    context and message, write(), what every return statement returns), the arguments of IBCDenom and the statement
+    shape of the middleware; Proofs/Ics20Source.v normalises that list ([shape_of]) to the two parameters of the hook
+    model, and the model instantiated with THOSE parameters is the [hook] all theorems below are about.  A `return
+    nil`, a dropped guard, a conversion on the parent context, a write() before the error test, a message with another
+    amount / denomination / receiver or a reshaped middleware breaks this obligation; renaming variables, deleting
+    the dead IBCDenom error branch or reordering the guards does not. *)
 Theorem C16_source_is_model :
   src_shape_ok = true /\
   forall state sha256 decode parse_int from_bech32 is_registered convert,
@@ -24,6 +27,14 @@ Theorem C16_source_is_model :
     = hook state sha256 decode parse_int from_bech32 is_registered convert.
 Proof. split; [vm_compute; reflexivity|intros; reflexivity]. Qed.
 Print Assumptions C16_source_is_model.
+
+(** the normal form the regenerated statement list has, spelled out *)
+Theorem C16_source_shape :
+  shape_of src_hook = Some (true, SrcAck) /\ src_hook_ack_reassigned = false /\ src_hook_denom_from_dest = true /\
+  src_hook_write_calls = 1%nat /\ src_mw_recv_shape = true /\ src_mw_timeout_inherited = true /\
+  src_mw_ack_shape = true /\ src_keeper_ack_noop = true.
+Proof. vm_compute. repeat split; reflexivity. Qed.
+Print Assumptions C16_source_shape.
 
 (** ** Transparency *)
 
@@ -49,6 +60,53 @@ Theorem C16_middleware_no_new_panic :
     middleware state sha256 decode parse_int from_bech32 is_registered convert transfer_recv st pkt = Ok (st2, Some a, hp).
 Proof. exact middleware_no_new_panic. Qed.
 Print Assumptions C16_middleware_no_new_panic.
+
+(** The same with hypotheses about THIS packet and the state the wrapped application left only (the form that applies
+    to conversions which can panic on other states) ... *)
+Theorem C16_middleware_no_new_panic_at :
+  forall state sha256 decode parse_int from_bech32 is_registered convert transfer_recv st pkt st1 a,
+  transfer_recv st pkt = Ok (st1, a) ->
+  (ack_success a = true ->
+   exists d amt, decode (pk_data pkt) = Some d /\ parse_int (fd_amount d) = Some amt /\ 0 < amt /\
+     length (sha256 (denom_prefix (pk_dport pkt) (pk_dchan pkt) ++ fd_denom d)) = 32%nat /\
+     convert st1 (hook_msg sha256 from_bech32 pkt d amt) <> Panic) ->
+  exists st2 hp,
+    middleware state sha256 decode parse_int from_bech32 is_registered convert transfer_recv st pkt = Ok (st2, Some a, hp).
+Proof. exact middleware_no_new_panic_at. Qed.
+Print Assumptions C16_middleware_no_new_panic_at.
+
+(** ... instantiated with the model of ConvertCoin (which DOES panic: 256-bit overflow of the escrow balance, supply
+    underflow in BurnCoins): the concrete stack returns whenever the wrapped application does, on every state whose
+    balances of the hook's denomination fit 256 bits and are covered by the supply (bank invariants). *)
+Theorem C16_concrete_no_new_panic :
+  forall MODULE sha256 decode parse_int from_bech32 transfer_recv st pkt st1 a,
+  transfer_sound cstate decode parse_int transfer_recv ->
+  (forall x, length (sha256 x) = 32%nat) ->
+  transfer_recv st pkt = Ok (st1, a) ->
+  (forall d amt, decode (pk_data pkt) = Some d -> parse_int (fd_amount d) = Some amt ->
+     let m := hook_msg sha256 from_bech32 pkt d amt in
+     bal st1 MODULE (cm_denom m) + bal st1 (cm_sender m) (cm_denom m) < W256 /\
+     bal st1 (cm_sender m) (cm_denom m) <= get1 (c_supply st1) (cm_denom m)) ->
+  exists st2 hp,
+    middleware cstate sha256 decode parse_int from_bech32 c_is_registered (convert_coin MODULE) transfer_recv st pkt
+    = Ok (st2, Some a, hp).
+Proof. exact concrete_no_new_panic. Qed.
+Print Assumptions C16_concrete_no_new_panic.
+
+(** Conversely, for ALL packets and states: a panic of the middleware is the wrapped application's own, or comes from
+    the hook after a SUCCESSFUL transfer of a REGISTERED denomination: sdk.NewCoin (negative amount / invalid
+    denomination) or ConvertCoin itself. *)
+Theorem C16_middleware_panic_only_from_hook :
+  forall state sha256 decode parse_int from_bech32 is_registered convert transfer_recv st pkt,
+  middleware state sha256 decode parse_int from_bech32 is_registered convert transfer_recv st pkt = Panic ->
+  transfer_recv st pkt = Panic \/
+  exists st1 a d amt, transfer_recv st pkt = Ok (st1, a) /\ ack_success a = true /\
+    decode (pk_data pkt) = Some d /\ parse_int (fd_amount d) = Some amt /\
+    is_registered st1 (cm_denom (hook_msg sha256 from_bech32 pkt d amt)) = true /\
+    (amt < 0 \/ valid_denom (cm_denom (hook_msg sha256 from_bech32 pkt d amt)) = false \/
+     convert st1 (hook_msg sha256 from_bech32 pkt d amt) = Panic).
+Proof. exact middleware_panic_inv. Qed.
+Print Assumptions C16_middleware_panic_only_from_hook.
 
 (** The middleware returns an error exactly when the wrapped application does. *)
 Theorem C16_middleware_err_iff :
@@ -91,6 +149,30 @@ Theorem C16_core_same_ack_as_bare :
              /\ oc <> None.
 Proof. exact core_same_ack_as_bare. Qed.
 Print Assumptions C16_core_same_ack_as_bare.
+
+(** Histories: in EVERY history of received packets (each MsgRecvPacket its own transaction), from EVERY initial
+    state, each packet that core processes is committed with the transfer application's acknowledgement for the state
+    that packet met — the commitment core would store around the bare module in that state; an error
+    acknowledgement leaves the state the packet met; no processed packet is left without acknowledgement. *)
+Theorem C16_history_acks :
+  forall state sha256 decode parse_int from_bech32 is_registered convert transfer_recv pkts st s p st' oc,
+  In (s, p, Ok (st', oc))
+     (core_history state sha256
+        (middleware state sha256 decode parse_int from_bech32 is_registered convert transfer_recv) st pkts) ->
+  exists st1 a, transfer_recv s p = Ok (st1, a) /\ ack_bytes a <> [] /\
+    oc = Some (sha256 (ack_bytes a)) /\
+    (ack_success a = false -> st' = s) /\
+    exists st'', core_recv state sha256 (bare state transfer_recv) s p = Ok (st'', oc).
+Proof. exact history_acks. Qed.
+Print Assumptions C16_history_acks.
+
+Theorem C16_history_no_silent_packet :
+  forall state sha256 decode parse_int from_bech32 is_registered convert transfer_recv pkts st s p st',
+  ~ In (s, p, Ok (st', None))
+       (core_history state sha256
+          (middleware state sha256 decode parse_int from_bech32 is_registered convert transfer_recv) st pkts).
+Proof. exact history_no_silent_packet. Qed.
+Print Assumptions C16_history_no_silent_packet.
 
 (** OnAcknowledgementPacket and OnTimeoutPacket are the wrapped application's. *)
 Theorem C16_callbacks_transparent :
@@ -156,6 +238,83 @@ Theorem C16_convert_coin_no_panic :
   convert_coin MODULE s m <> Panic.
 Proof. exact convert_coin_no_panic. Qed.
 Print Assumptions C16_convert_coin_no_panic.
+
+(** ** End to end: the middleware around the CONCRETE model of ibc-go's transfer application (Model/Ics20Transfer.v:
+    ValidateBasic, ReceiveEnabled, bech32, returning tokens released from the channel escrow / vouchers minted by the
+    transfer module and paid out, blocked addresses, 256-bit panics, no rollback inside the application).  No
+    state-transforming oracle is left: [decode], [parse_int], [from_bech32], [sha256], [denom_ok]
+    (ValidatePrefixedDenom) are pure string functions, [err_ack] the bytes of the error acknowledgement. *)
+
+(** the concrete transfer application meets the oracle hypothesis of the no-panic theorems *)
+Theorem C16_transfer_model_sound :
+  forall sha256 decode parse_int from_bech32 denom_ok err_ack recv_enabled TMODULE escrow_of,
+  transfer_sound cstate decode parse_int
+    (ctransfer sha256 decode parse_int from_bech32 denom_ok err_ack recv_enabled TMODULE escrow_of).
+Proof. exact ctransfer_sound. Qed.
+Print Assumptions C16_transfer_model_sound.
+
+(** For ALL packets and ALL states in which the two module accounts are blocked addresses (app.go BlockedAddrs):
+    whenever the stack returns, the acknowledgement is the transfer application's — the error acknowledgement, and
+    then the hook did not run, or {"result":"AQ=="}; after a result acknowledgement the transfer application credited
+    the receiver exactly the packet amount ([minted] vouchers / coins [released] from the channel escrow) and changed
+    NOTHING else, and the middleware then left that state alone or performed the full conversion of exactly that
+    amount ([after_middleware]). *)
+Theorem C16_end_to_end :
+  forall MODULE sha256 decode parse_int from_bech32 denom_ok err_ack recv_enabled TMODULE escrow_of st pkt st2 oa hp,
+  length MODULE = 20%nat ->
+  mem1 MODULE (c_blocked st) = true -> mem1 TMODULE (c_blocked st) = true ->
+  full_stack MODULE sha256 decode parse_int from_bech32 denom_ok err_ack recv_enabled TMODULE escrow_of st pkt
+    = Ok (st2, oa, hp) ->
+  exists st1 a,
+    ctransfer sha256 decode parse_int from_bech32 denom_ok err_ack recv_enabled TMODULE escrow_of st pkt = Ok (st1, a) /\
+    oa = Some a /\
+    (ack_success a = false -> st2 = st1 /\ hp = None /\ ack_bytes a = err_ack pkt) /\
+    (ack_success a = true ->
+     ack_bytes a = result_ack_bytes /\
+     after_middleware MODULE sha256 decode parse_int from_bech32 pkt st1 st2 hp /\
+     exists d amt r,
+       decode (pk_data pkt) = Some d /\ parse_int (fd_amount d) = Some amt /\ from_bech32 (fd_receiver d) = Some r /\
+       0 < amt /\ mem1 r (c_blocked st) = false /\
+       let g := received_denom sha256 pkt d in
+       if receiver_chain_is_source (pk_sport pkt) (pk_schan pkt) (fd_denom d)
+       then escrow_of (pk_dport pkt) (pk_dchan pkt) = r \/
+            released st st1 (escrow_of (pk_dport pkt) (pk_dchan pkt)) r g amt
+       else minted st st1 r g amt).
+Proof. exact end_to_end. Qed.
+Print Assumptions C16_end_to_end.
+
+(** The property in its own words (vouchers minted here): after a result acknowledgement, relative to the state BEFORE
+    the packet, either the receiver holds exactly [amt] more vouchers and no token balance, total supply or module
+    holding changed — or the receiver's voucher balance is what it was, the receiver's own 20-byte address holds exactly
+    [amt] more tokens of the registered contract and the [amt] vouchers are escrowed in the aggregate module account
+    (module-owned contract) or were burned against tokens released from the module's holdings (external contract). *)
+Theorem C16_receiver_gets_vouchers_or_tokens :
+  forall MODULE sha256 decode parse_int from_bech32 denom_ok err_ack recv_enabled TMODULE escrow_of
+         st pkt st2 a hp d amt r,
+  length MODULE = 20%nat ->
+  mem1 MODULE (c_blocked st) = true -> mem1 TMODULE (c_blocked st) = true ->
+  full_stack MODULE sha256 decode parse_int from_bech32 denom_ok err_ack recv_enabled TMODULE escrow_of st pkt
+    = Ok (st2, Some a, hp) ->
+  ack_success a = true ->
+  decode (pk_data pkt) = Some d -> parse_int (fd_amount d) = Some amt -> from_bech32 (fd_receiver d) = Some r ->
+  receiver_chain_is_source (pk_sport pkt) (pk_schan pkt) (fd_denom d) = false ->
+  let v := ibc_denom sha256 (pk_dport pkt) (pk_dchan pkt) (fd_denom d) in
+  0 < amt /\ r <> MODULE /\
+  ((bal st2 r v = bal st r v + amt /\ get1 (c_supply st2) v = get1 (c_supply st) v + amt /\
+    bal st2 MODULE v = bal st MODULE v /\ c_tokens st2 = c_tokens st /\ c_tok_total st2 = c_tok_total st /\
+    hp <> None) \/
+   (hp = Some HConverted /\ length r = 20%nat /\ bal st2 r v = bal st r v /\
+    exists id p, find1 (c_denom_idx st) v = Some id /\ find1 (c_pairs st) id = Some p /\
+      let c := cp_erc20 p in
+      tok st2 c r = tok st c r + amt /\
+      ((cp_owner p = 1%nat /\ bal st2 MODULE v = bal st MODULE v + amt /\
+        get1 (c_supply st2) v = get1 (c_supply st) v + amt /\
+        get1 (c_tok_total st2) c = get1 (c_tok_total st) c + amt /\ tok st2 c MODULE = tok st c MODULE) \/
+       (cp_owner p = 2%nat /\ bal st2 MODULE v = bal st MODULE v /\
+        get1 (c_supply st2) v = get1 (c_supply st) v /\
+        get1 (c_tok_total st2) c = get1 (c_tok_total st) c /\ tok st2 c MODULE = tok st c MODULE - amt)))).
+Proof. exact receiver_gets_vouchers_or_tokens. Qed.
+Print Assumptions C16_receiver_gets_vouchers_or_tokens.
 
 (** ** Returning native coins *)
 
@@ -224,6 +383,24 @@ Theorem C16_monitor_sound :
 Proof. exact monitor_sound. Qed.
 Print Assumptions C16_monitor_sound.
 
+(** ... and the stronger check applied to the DIRECT call of the keeper hook (monitor kind 72: funds untouched and then
+    the registry untouched unless the contract is dead, or a full conversion credited to a 20-byte receiver). *)
+Theorem C16_monitor_sound_direct_hook :
+  forall MODULE sha256 decode parse_int from_bech32 pkt st1 st2 hp g rest,
+  after_middleware MODULE sha256 decode parse_int from_bech32 pkt st1 st2 hp ->
+  forall d amt, decode (pk_data pkt) = Some d -> parse_int (fd_amount d) = Some amt ->
+  let m := hook_msg sha256 from_bech32 pkt d amt in
+  cm_sender m <> MODULE ->
+  forall owner c,
+    (forall id p, minting_enabled st1 m = Some (id, p) -> cp_owner p = owner /\ cp_erc20 p = c) ->
+    let b := proj MODULE (cm_sender m) (cm_denom m) g c rest st1 in
+    let s := proj MODULE (cm_sender m) (cm_denom m) g c rest st2 in
+    (snap_funds_eqb b s &&
+     (negb (mem1 c (c_code st1)) || (Bool.eqb (sn_indexed b) (sn_indexed s) && Bool.eqb (sn_pair b) (sn_pair s)))) ||
+    (full_conversion_obs owner false amt b s && Nat.eqb (length (cm_sender m)) 20) = true.
+Proof. exact monitor_sound_strong. Qed.
+Print Assumptions C16_monitor_sound_direct_hook.
+
 (** ** Non-vacuity: concrete states in which each outcome occurs (Proofs/Ics20Toy.v: receiver holds 5 vouchers, the
     packet delivers 100).  View = (receiver's vouchers, module's vouchers, voucher supply, receiver's tokens, module's
     tokens, returned ack success, hook path code). *)
@@ -285,3 +462,35 @@ Example C16_ex_core_commits :
   | _ => False
   end.
 Proof. vm_compute. repeat split; reflexivity. Qed.
+
+(** the whole stack with the concrete transfer application: vouchers minted and converted (module-owned), minted and
+    converted against the module's holdings (external), minted and left alone after a rolled-back conversion; receive
+    disabled / blocked receiver: error acknowledgement (a blocked receiver leaves the minted coins with the transfer
+    module account ON THE BRANCH — ibc-go core drops it); returning native coins released from the channel escrow.
+    The hypotheses of [C16_end_to_end] hold in these worlds. *)
+Example C16_ex_end_to_end :
+  let w := block_also TMOD (world 1 VOUCHER RCV 0 true) in
+  length MOD = 20%nat /\ mem1 MOD (c_blocked w) = true /\ mem1 TMOD (c_blocked w) = true /\
+  view (toy_full data_mint (Some RCV) true w pkt0) RCV RCV VOUCHER = Some (5, 100, 105, 100, 0, Some true, Some 5%nat) /\
+  view (toy_full data_mint (Some RCV) true (block_also TMOD (world 2 VOUCHER RCV 100 true)) pkt0) RCV RCV VOUCHER
+    = Some (5, 0, 5, 100, 0, Some true, Some 5%nat) /\
+  view (toy_full data_mint (Some RCV) true (block_also TMOD (world 2 VOUCHER RCV 99 true)) pkt0) RCV RCV VOUCHER
+    = Some (105, 0, 105, 0, 99, Some true, Some 4%nat) /\
+  view (toy_full data_mint (Some RCV) false w pkt0) RCV RCV VOUCHER = Some (5, 0, 5, 0, 0, Some false, None) /\
+  view (toy_full data_mint (Some MOD) true w pkt0) TMOD RCV VOUCHER = Some (100, 0, 105, 0, 0, Some false, None) /\
+  core_recv cstate toy_sha (toy_full data_mint (Some MOD) true) w pkt0 = Ok (w, Some (toy_sha (ack_bytes err_ack))) /\
+  view (toy_full data_return (Some RCV) true w pkt0) RCV RCV (B "atele") = Some (100, 0, 1000, 0, 0, Some true, Some 3%nat).
+Proof. vm_compute. repeat split; reflexivity. Qed.
+
+(** a history of three packets through core: converted, rolled back after the module ran out of tokens, receive to a
+    blocked address — every one acknowledged with the transfer application's acknowledgement *)
+Example C16_ex_history :
+  map (fun x => match snd x with Ok (_, oc) => oc | _ => None end)
+      (core_history cstate toy_sha (toy_mw data_mint (Some RCV)) (world 2 VOUCHER RCV 150 true) [pkt0; pkt0]) =
+  [Some (toy_sha (ack_bytes ok_ack)); Some (toy_sha (ack_bytes ok_ack))] /\
+  match core_history cstate toy_sha (toy_mw data_mint (Some RCV)) (world 2 VOUCHER RCV 150 true) [pkt0; pkt0] with
+  | [(_, _, Ok (s1, _)); (_, _, Ok (s2, _))] =>
+      (tok s1 CTR RCV, bal s1 RCV VOUCHER, tok s2 CTR RCV, bal s2 RCV VOUCHER) = (100, 5, 100, 105)
+  | _ => False
+  end.
+Proof. vm_compute. split; reflexivity. Qed.
